@@ -399,6 +399,13 @@ def run(ctx):
 
     rule_pipeline(ctx, mir)
 
+    # ------------------------------------------------------------------ R04.10 / R04.11 (shared with C03 R03.8, C16 R16.3)
+    # the namespace the simulator reports decides whether `/>` closes an element, i.e. the tree shape selectors match on
+    from .c03 import rule_foreign_feedback_table, rule_self_closing_ns, spec_tables
+    rule_foreign_feedback_table(ctx, idx, spec_tables(), rid="R04.10")
+    from .c16 import rule_ns_of_tag
+    rule_ns_of_tag(ctx, mir, rid="R04.11")
+
     ctx.not_decided += ["correctness of the compiled program (prefix sharing, jumps, recovery points) against CSS semantics for all selector sets x documents: a behavioural equivalence out of reach of this technique",
                         "the arithmetic of NthChild::has_index (value-level; e.g. sign handling for negative steps)"]
     return ("Structural clauses only: validator/translator agreement over the selectors crate's Component, Combinator and NthType variants, the "
